@@ -36,6 +36,9 @@ func registerFilters() {
 	})
 }
 
+// AllProtos lists every shipped wire protocol, the websocket sub-protocols included.
+func AllProtos() []string { return append(StreamProtos(), "ws-json", "ws-pb") }
+
 // StreamProtos lists the wire protocols that run directly on a byte stream.
 func StreamProtos() []string {
 	return []string{"raw", "json", "pb", "thrift-binary", "thrift-struct", "http"}
@@ -54,6 +57,8 @@ func ProtoFunc(name string) erpc.ProtoFunc {
 		return thriftproto.NewBinaryProtoFunc()
 	case "thrift-struct":
 		return thriftproto.NewStructProtoFunc()
+	case "ws-json", "ws-pb":
+		return WSSubProto(name)
 	case "http":
 		// NewHTTProtoFunc switches the process-wide mapper to HTTP as a side effect; restore the run's choice
 		pf := httproto.NewHTTProtoFunc()
